@@ -71,8 +71,19 @@ def ensure_coq_built(pid=None, quiet=True):
     os.makedirs(GEN, exist_ok=True)
     with open(os.path.join(GEN, ".build.lock"), "w") as lock:
         fcntl.flock(lock, fcntl.LOCK_EX)
-        if not os.path.exists(os.path.join(COQ_DIR, "Makefile")):
-            subprocess.run(["coq_makefile", "-f", "_CoqProject", "-o", "Makefile"], cwd=COQ_DIR, check=True,
+        # build from the listed files that exist (a line for a file that is not written yet must not
+        # break dependency analysis for every other property)
+        lines = []
+        for l in open(os.path.join(COQ_DIR, "_CoqProject")).read().split("\n"):
+            t = l.strip()
+            if t.endswith(".v") and not t.startswith("-") and not os.path.exists(os.path.join(COQ_DIR, t)):
+                continue
+            lines.append(l)
+        build = "\n".join(lines)
+        bp = os.path.join(COQ_DIR, "_CoqProject.build")
+        if not os.path.exists(bp) or open(bp).read() != build or not os.path.exists(os.path.join(COQ_DIR, "Makefile")):
+            open(bp, "w").write(build)
+            subprocess.run(["coq_makefile", "-f", "_CoqProject.build", "-o", "Makefile"], cwd=COQ_DIR, check=True,
                            capture_output=True)
         targets = []
         if pid is not None:
